@@ -1,17 +1,6 @@
 \* thorough: core library, at most 3 simultaneously live nodes, all histories of at most 7 operations
 CONSTANTS
-  Pkgs <- L_core_Pkgs
-  PkgKey <- L_core_PkgKey
-  PkgImports <- L_core_PkgImports
-  PkgExports <- L_core_PkgExports
-  KindTab <- L_core_Kinds
-  ImportNames <- L_core_ImportNames
-  ExportNames <- L_core_ExportNames
-  DefNames <- L_core_DefNames
-  ValidNames <- L_core_ValidNames
-  DefClass <- L_core_DefClass
-  DefDeps <- L_core_DefDeps
-  NameInfo <- L_core_NameInfo
+  LibName = "core"
   NodeIds = {1, 2, 3}
   OpKinds = {"register", "unregister", "define_type", "import", "instantiate", "alias", "set_arg", "unset_arg", "export", "unexport", "set_name", "remove"}
   InitReg = {}
